@@ -17,7 +17,7 @@ ASSUMPTIONS = ['vf/ref/model.py transcribes TakeUndefInstrException ... TakePhys
                'EnterHypMode / TakeReset; HSR contents are UNKNOWN for the routed cases and not compared',
                'external / asynchronous aborts cannot be generated (mock hooks return False), so their routing is not exercised']
 CFGS = ['v6-pmsa', 'v6-pmsa-sec', 'v7-vmsa-sec', 'v7-vmsa-virt', 'v5-pmsa']
-KINDS = ['undef', 'svc', 'smc', 'dabort', 'irq', 'fiq', 'hyptrap', 'reset', 'svc-insn', 'udf-insn']
+KINDS = ['undef', 'svc', 'smc', 'dabort', 'irq', 'fiq', 'hyptrap', 'reset', 'svc-insn', 'udf-insn', 'hyptrap-insn']
 
 
 def plan(tier, seed):
@@ -42,13 +42,13 @@ def run_shard(spec):
         kind = rng.choice(KINDS)
         if kind == 'smc' and not cfg['have_security_ext']:
             continue
-        if kind == 'hyptrap' and not cfg['have_virt_ext']:
+        if kind in ('hyptrap', 'hyptrap-insn') and not cfg['have_virt_ext']:
             continue
         ns = rng.randrange(2) if cfg['have_security_ext'] else 0
-        if kind == 'hyptrap':
+        if kind in ('hyptrap', 'hyptrap-insn'):
             ns = 1
         mode = rng.choice(ctx.legal_modes(ns))
-        if kind == 'hyptrap' and mode in ('hyp', 'mon'):
+        if kind in ('hyptrap', 'hyptrap-insn') and mode in ('hyp', 'mon'):
             mode = 'svc'
         thumb = rng.random() < 0.5
         itpos = rng.choice(['out', 'out', 'mid', 'last']) if thumb else 'out'
@@ -59,6 +59,10 @@ def run_shard(spec):
         elif kind == 'udf-insn':
             word, ikind = (0xDE00 | rng.getrandbits(8), 't16') if thumb else (0xE7F000F0, 'arm')
             itpos = 'out'
+        elif kind == 'hyptrap-insn':
+            # a Hyp trap taken from INSIDE an executing instruction (WFI with HCR.TWI, WFE with HCR.TWE and no event pending)
+            wfe = rng.random() < 0.4
+            word, ikind = ((0xBF20 if wfe else 0xBF30), 't16') if thumb else ((0xE320F002 if wfe else 0xE320F003), 'arm')
         code = rng.choice([0x10000, 0x10000, 0x0, 0x4, 0xFFFFFFFC, 0xFFFFFFF8])
         desc = scen.prepare(ctx, rng, ikind, word, mode=mode, itpos=itpos, ns=ns, code=code, e=rng.randrange(2))
         cpu = ctx.cpu
@@ -86,6 +90,11 @@ def run_shard(spec):
             r.cpsr.j = 1                  # source state ThumbEE (J = T = 1): every entry clears J and sets T from (H)SCTLR.TE
             desc['thumbee'] = True
             ls.bump('entries_from_thumbee')
+        if kind == 'hyptrap-insn':
+            r.hcr.twi = 1
+            r.hcr.twe = 1
+            r.hcr.tge = 0
+            r.event_register = False
         desc.update(exc=kind, sctlr='%#x' % r.sctlr.value, scr='%#x' % r.scr.value, hcr='%#x' % r.hcr.value)
         M.activate(cpu)
         pre = observe.snapshot(cpu)
